@@ -136,7 +136,7 @@ def main():
         if recs:
             ck.sample(dict(kind='judged scenario', owner=items[0][1], rec={k: recs[0][k] for k in ('path', 'ops1', 'ops2', 'rc1', 'rc2', 'kind', 'reason')}))
     for need in ('ok', 'conflict', 'readconflict'):
-        if not outcomes.get(need):
+        if not outcomes.get(need) and not ck.violations:
             common.machinery_failure('no real scenario ended with %s' % need)
     ck.assumptions += ['the data manager is a stand-in for ZODB (harness/minijar.py): serial check per written object, '
                        '_p_resolveConflict on states with reference stubs, readCurrent verification',
